@@ -690,6 +690,10 @@ def tet_compute_gradient(tet, vfunc):
     """
     import sys
 
+    # differences of vertex values are taken below: unsigned integer input
+    # would wrap around
+    if not np.issubdtype(np.asarray(vfunc).dtype, np.inexact):
+        vfunc = np.asarray(vfunc, dtype=float)
     v0 = tet.v[tet.t[:, 0], :]
     v1 = tet.v[tet.t[:, 1], :]
     v2 = tet.v[tet.t[:, 2], :]
